@@ -230,6 +230,55 @@ func c19SweepCheck(l *explore.Local, _ struct{}, c c19Sweep) *explore.Fail {
 	return nil
 }
 
+// c19Wrap: sound is power-cycled Steps frame-sequencer steps (plus 5 cycles) after the machine started, a channel is
+// then triggered with length enabled and 64 length clocks to go, and the run continues past the end of the first
+// whole second of emulated time (1,048,576 machine cycles) until the channel has expired. The sequencer knows nothing
+// of seconds: its steps stay 2,048 cycles apart and every second one clocks length, whenever sound was switched on.
+type c19Wrap struct {
+	Ch    int `json:"ch"`
+	Steps int `json:"steps"`
+	Off   int `json:"off"` // cycles sound stays off
+}
+
+func c19WrapCheck(l *explore.Local, _ struct{}, c c19Wrap) *explore.Fail {
+	p := newAPUPair()
+	r := c19Ch[c.Ch]
+	ctx := fmt.Sprintf("channel %d, sound power-cycled %d frame-sequencer steps after the start (off for %d cycles), 64 length clocks running across the end of the first second", c.Ch+1, c.Steps, c.Off)
+	if f := p.tick(c.Steps*2048+5, ctx); f != nil {
+		return f
+	}
+	t := uint8(0)
+	if c.Ch == 2 {
+		t = 0xc0
+	}
+	p.write(0xff26, 0x00)
+	if f := p.tick(c.Off, ctx); f != nil {
+		return f
+	}
+	for _, w := range [][2]uint16{{0xff26, 0x80}, {0xff10, 0x00}, {r.dac, uint16(r.dacOn)}, {0xff13, 0x00}, {r.len, uint16(t)}, {r.ctl, 0xc0}} {
+		p.write(w[0], uint8(w[1]))
+		if f := p.compareNR52(ctx); f != nil {
+			return f
+		}
+	}
+	if p.mod.Ch[c.Ch].Unspec || !p.mod.Ch[c.Ch].On {
+		return explore.Failf("harness: the run did not start with a determined, running channel", "%s", ctx)
+	}
+	if f := p.tick(67*4096, ctx); f != nil {
+		return f
+	}
+	if p.cycles < 1048576+4096 {
+		return explore.Failf("harness: the run did not cross the end of the first second", "%s: %d cycles", ctx, p.cycles)
+	}
+	if p.mod.Ch[c.Ch].On {
+		return explore.Failf("harness: model channel still on after the horizon", "%s", ctx)
+	}
+	l.Eval(1)
+	l.Trans(p.cycles)
+	l.Outcome(uint64(c.Steps)<<8 | uint64(c.Ch))
+	return nil
+}
+
 func init() {
 	for ch := 0; ch < 4; ch++ {
 		apuAlphabets[fmt.Sprintf("c19-ch%d", ch+1)] = c19Alphabet(ch)
@@ -237,7 +286,7 @@ func init() {
 	register("C19", "model_checking", func(c *Ctx) {
 		if c.R != nil {
 			c.R.Rule = "per channel: every sequence up to the depth bound over {length loads (4 values), DAC on/off, NRx4 in {00,40,80,C0}, NR10 in {00,11} (channel 1, frequency 7FF: the sweep-overflow-at-trigger path), NR52 off/on, time: 1 cycle, to 1 cycle before the next 512 Hz step, 2 cycles, 2,048 cycles} with at most 3 writes between time advances; NR52 is compared with the reference length/status model after every event and after EVERY machine cycle; plus complete expiry runs for (channel, length data t, first/second half of the frame-sequencer period, length enabled at / after the trigger, 3 skews) checked cycle by cycle until the channel switches off, and re-trigger runs with the counter at 0 (reload to 64/256, minus the extra clock in the first half)"
-			c.R.Rule += "; plus channel 1's sweep over time: every NR10 value x 10 frequencies triggered and run for 24 sweep clocks, NR10 rewritten while playing (park / revive without a new trigger), overflow racing length expiry; the status bit must drop in the machine cycle of the overflowing calculation of the reference sweep unit (shadow frequency, timer reloaded with the period or 8, enabled flag latched at the trigger) and not before"
+			c.R.Rule += "; secondary evidence: every edge of the TLC state graph of tla/APULen.tla (an independent restatement of one channel's length counter and status bit) replayed on each real channel; plus channel 1's sweep over time: every NR10 value x 10 frequencies triggered and run for 24 sweep clocks, NR10 rewritten while playing (park / revive without a new trigger), overflow racing length expiry; the status bit must drop in the machine cycle of the overflowing calculation of the reference sweep unit (shadow frequency, timer reloaded with the period or 8, enabled flag latched at the trigger) and not before"
 			c.R.Assumptions = []string{"frame-sequencer step times are observed from the implementation (phase is a convention) and checked to be exactly 2,048 machine cycles apart; the step index is the model's own (0 after power-on)", "start-up register/channel state is not asserted", "don't-cares: leaving negate mode after a calculation in it, re-trigger with the counter at its maximum without reload, wave-RAM access while channel 3 plays"}
 		}
 		depth := 4
@@ -256,6 +305,21 @@ func init() {
 					}
 				}
 			}, func() struct{} { return struct{}{} }, apuDFS)
+		explore.Product(c.R, "expiry-across-the-second", explore.PartOpt{Bound: "1.2 million machine cycles per run, NR52 compared after every cycle", Domain: "4 channels x sound power-cycled 440 / 441 / 443 / 446 frame-sequencer steps after the start (even and odd) x off for {1, 100, 2049} cycles; the expiry run crosses the end of the first second"},
+			func(yield func(c19Wrap) bool) {
+				for ch := 0; ch < 4; ch++ {
+					for _, st := range []int{440, 441, 443, 446} {
+						for _, off := range []int{1, 100, 2049} {
+							if !c.Thorough() && off != 100 && ch != 1 {
+								continue
+							}
+							if !yield(c19Wrap{Ch: ch, Steps: st, Off: off}) {
+								return
+							}
+						}
+					}
+				}
+			}, func() struct{} { return struct{}{} }, c19WrapCheck)
 		explore.Product(c.R, "sweep-over-time", explore.PartOpt{Bound: "24 sweep clocks (0.19 s of emulated time) after the trigger, 20 after the last NR10 rewrite; NR52 compared after every machine cycle", Domain: "every NR10 value x 10 frequencies x 3 trigger phases; NR10 rewritten while playing: park / revive sequences (thorough: every value rewritten by every value); sweep overflow racing length expiry"},
 			func(yield func(c19Sweep) bool) {
 				freqs := []int{0x000, 0x001, 0x200, 0x3ff, 0x400, 0x555, 0x6ff, 0x7c0, 0x7fe, 0x7ff}
@@ -359,5 +423,6 @@ func init() {
 					}
 				}
 			}, func() struct{} { return struct{}{} }, c19ExpiryCheck)
+		c19TLCPart(c)
 	})
 }
